@@ -191,7 +191,9 @@ def assign_equals_operator(w, q, imp, body, op_trait, rhs_ty):
     it_b = U.impl_item(bimp, OPFN[sym])
     inl = {it_b["path"] + "!"} if it_b else set()
     try:
-        ev1 = T.Evaluator(U, keep_tags=False, inline=inl)
+        # (both sides fully expanded: a callee entered through a &mut receiver is always looked into, so the defaults
+        # the operator forwards to must be looked into as well)
+        ev1 = T.Evaluator(U, keep_tags=False, inline=inl | {"*"}, stop=set())
         env = {}
         for pp, t in zip(body["params"], (a, r)):
             if "pat" in pp:
@@ -199,13 +201,17 @@ def assign_equals_operator(w, q, imp, body, op_trait, rhs_ty):
         outs_a = []
         for (g, kind, t, e2) in ev1.ev(body["value"], T.State((), env), 0, body):
             outs_a.append((g, "val", e2[pj["id"]]) if kind in ("val", "ret") else (g, kind, t))
-        outs_b = T.Evaluator(U, keep_tags=False).summarize(bb, args=[a, r])
+        outs_b = T.Evaluator(U, keep_tags=False, inline={"*"}, stop=set()).summarize(bb, args=[a, r])
         view = ovequiv.TypeView(U, q)
     except (T.Unsupported, ovequiv.NotEquivalent) as x:
         return "outside the analysed fragment: %s" % getattr(x, "what", x)
     norm = lambda outs: [(tuple((T.canon(view.concretise(T.canon(at))), p) for at, p in g), k,
                           T.canon(view.concretise(T.canon(t))) if k == "val" else None) for (g, k, t) in outs]
-    na, nb = norm(outs_a), norm(outs_b)
+    try:
+        # specialised to the type: guards its constant tables decide (the unit test of a one-unit type) are resolved
+        na, nb = ovequiv._cases(view, outs_a, {}), ovequiv._cases(view, outs_b, {})
+    except (T.Unsupported, ovequiv.NotEquivalent):
+        na, nb = norm(outs_a), norm(outs_b)
     try:
         atoms = T.guard_atoms(na + nb)
         for asg in T.assignments(atoms):
